@@ -74,13 +74,15 @@ register(
         "Q=predict/transform with an inner estimator failing: every predict-time site is failed once too); "
         "a dry run lists the N fault sites (task index, peer class, method, ordinal) reached by fit and EVERY single "
         "site is failed once (quick; pairs of sites in consecutive fits in thorough), or every applicable "
-        "invalid-data kind is tried; after every operation parameters and caller arrays are compared, and the last "
+        "invalid-data kind is tried, or (third failing mode) the Python-level calls that leave mlinsights during fit "
+        "are numbered by a dry run and call k raises ValueError / RuntimeError / MemoryError / an interruption "
+        "(all k when at most 16 quick / 48 thorough, else that many drawn); after every operation parameters and caller arrays are compared, and the last "
         "successful fit is compared bit-for-bit with a fresh estimator fitted under the same global seed, entropy "
         "and (taped) thread schedule; non-trivial = at least one fault fired or invalid input was rejected, or a "
         "multi-operation history ran; distinct = distinct (class, template, config, fault set, schedule digest)"
     ),
     assumptions=[
-        "fault sites are the fit/transform/predict calls on peer estimators (subclasses of real scikit-learn estimators) -- a failure inside mlinsights' own numpy code is only reached through invalid data",
+        "fault sites are the fit/transform/predict calls on peer estimators (subclasses of real scikit-learn estimators) and, in the foreign-call mode, every Python-level call from mlinsights into scikit-learn / numpy / the harness made in the caller's thread; failures inside C-implemented numpy functions are only reached through invalid data",
         "single-fault enumeration per scenario is exhaustive for the scenario's sites; scenarios themselves are sampled",
         "QuantileMLPRegressor, ARTimeSeriesRegressor, mlbatch and search_rank cannot run in this environment (scikit-learn 1.9 / numpy 2 incompatibilities) and are not exercised",
         "configurations documented to write into their input (copy_x=False, copy_X=False) are generated but exempt from the data-unchanged oracle",
@@ -91,6 +93,8 @@ register(
         "invalid_data_accepted",
         "scenario_without_fault_site",
         "preempt_inside_task",
+        "fit_failed_at_a_foreign_call",
+        "foreign_calls_total",
     ],
 )
 
